@@ -118,6 +118,9 @@ class Vec:
         if prefix is not None and len(prefix) == 2:
             prefix = (prefix[0], prefix[1], 0)
         self.elem_ty, self.prefix, self.items, self.low = elem_ty, prefix, (items if items is not None else []), low
+        # random-access region inside the symbolic prefix (the variable heap): key -> [index term, value].
+        # A key is the printed simplified index term; distinct keys must be provably distinct indices.
+        self.slots = None
 
     def materialize(self, tc, k):
         """Make the top k elements of the symbolic prefix explicit (deterministic names)."""
@@ -148,11 +151,25 @@ class Opaque:
 
 
 class FnVal:
+    """function item / fn pointer / closure (env: captured values by index)"""
+
     def __init__(self, name, env=None):
         self.name, self.env = name, env
 
     def __repr__(self):
-        return "Fn(%s)" % self.name
+        return "Fn(%s%s)" % (self.name, " +env" if self.env else "")
+
+
+class PMap:
+    """Persistent map (rpds RedBlackTreeMap): an opaque base (None = empty) plus the entries written
+    on top of it, newest last. Lookups of a key that provably equals / differs from the written keys
+    are exact; anything else is over-approximated by the summary."""
+
+    def __init__(self, ty, base, entries=None):
+        self.ty, self.base, self.entries = ty, base, (entries if entries is not None else [])
+
+    def __repr__(self):
+        return "PMap(%s + %d entries)" % ("empty" if self.base is None else self.base, len(self.entries))
 
 
 class SliceView:
@@ -174,7 +191,7 @@ class Uninit:
 
 # --------------------------------------------------------------------------- types
 
-OPAQUE_PREFIXES = ("arcstr::", "ArcStr", "Substr", "rpds::", "Vector<", "RedBlackTreeMap<", "std::string::String",
+OPAQUE_PREFIXES = ("arcstr::", "ArcStr", "Substr", "rpds::", "RedBlackTreeMap<", "std::string::String",
                    "String", "str", "std::rc::Rc<std::cell::RefCell<dyn", "Rc<RefCell<dyn", "std::fmt::", "Arguments<",
                    "core::fmt::", "std::path::", "std::fs::", "std::io::", "dyn ", "std::any::TypeId", "TypeId",
                    "lex::Lex", "Lex", "[u8]", "std::borrow::Cow<", "Cow<", "std::str::", "Chars<", "CharIndices<",
@@ -242,6 +259,16 @@ def base_name(path):
 class TypeCtx:
     def __init__(self, defs):
         self.defs = defs
+        # representation invariants assumed for symbolic values of crate types: type -> fn(origin) -> [z3 cond]
+        self.invariants = {}
+        self.assumptions = []        # global facts about symbolic inputs (collected as values are created)
+        self.assumed = set()
+
+    def note_new(self, bn, origin):
+        f = self.invariants.get(bn)
+        if f is not None and origin not in self.assumed:
+            self.assumed.add(origin)
+            self.assumptions.extend(f(origin))
 
     def kind(self, ty):
         """-> (kind, info) with kind in int/bool/float/unit/ref/tuple/vec/enum/struct/opaque/fn/never"""
@@ -273,6 +300,8 @@ class TypeCtx:
         bn = base_name(head)
         if bn == "Vec" and args:
             return "vec", args[0]
+        if bn == "Vector" and args and ("rpds" in head or head == "Vector"):
+            return "vec", args[0]          # persistent vector: same model, operations copy
         if bn in ("Rc", "Box", "Arc") and args and not args[0].startswith("std::cell::RefCell<dyn") and not args[0].startswith("RefCell<dyn"):
             return "ref", (args[0], False)
         for p in OPAQUE_PREFIXES:
@@ -315,19 +344,29 @@ def mk_sym(tc, ty, name):
     if k == "tuple":
         return Tuple([mk_sym(tc, t, "%s.%d" % (name, i)) for i, t in enumerate(info)])
     if k == "vec":
-        return Vec(info, prefix=(name, z3.BitVec(name + ".len", 64), 0), items=[])
+        v = Vec(info, prefix=(name, z3.BitVec(name + ".len", 64), 0), items=[])
+        if "Vector" in split_generic(strip_ty(ty))[0]:
+            v.slots = {}          # persistent vectors are read by index
+        return v
     if k == "enum":
         return Enum(strip_ty(ty), None, None, origin=name, discr=z3.BitVec(name + ".discr", 64))
     if k == "struct":
+        tc.note_new(info[0], name)
         return Struct(strip_ty(ty), {}, origin=name)
     if k == "fn":
         return FnVal("?sym:" + name)
+    if "RedBlackTreeMap" in split_generic(strip_ty(ty))[0]:
+        return PMap(strip_ty(ty), z3.Const(name, opaque_sort("rpds::RedBlackTreeMap")), [])
     return Opaque(strip_ty(ty), z3.Const(name, opaque_sort(strip_ty(ty))))
 
 
 def clone_val(v):
     """Copy of a value for `copy`/`move`: containers duplicated, pointers keep their target."""
-    if isinstance(v, (Int, Bool, Float, Unit, Opaque, FnVal, Uninit, SliceView)):
+    if isinstance(v, FnVal):
+        return FnVal(v.name, clone_val(v.env) if v.env is not None else None)
+    if isinstance(v, PMap):
+        return PMap(v.ty, v.base, [(clone_val(k), clone_val(x)) for k, x in v.entries])
+    if isinstance(v, (Int, Bool, Float, Unit, Opaque, Uninit, SliceView)):
         return v
     if isinstance(v, Ref):
         return Ref(v.box, v.path, v.mut)
@@ -338,5 +377,8 @@ def clone_val(v):
     if isinstance(v, Enum):
         return Enum(v.ty, v.variant, clone_val(v.payload) if v.payload is not None else None, v.origin, v.discr)
     if isinstance(v, Vec):
-        return Vec(v.elem_ty, v.prefix, [clone_val(x) for x in v.items], v.low)
+        nv = Vec(v.elem_ty, v.prefix, [clone_val(x) for x in v.items], v.low)
+        if v.slots is not None:
+            nv.slots = {k: [t, clone_val(x)] for k, (t, x) in v.slots.items()}
+        return nv
     raise Unsupported("clone of %r" % (v,))
